@@ -251,9 +251,77 @@ fn expansion(dag: &J, sid: &J) -> f64 {
 }
 
 /// impl -> spec: drive the real iterators on random DAGs, log what they yielded.
+/// The crate's own identity-hash tracker (`MaxSharing` over real nodes): committed programs from the generator,
+/// objects numbered by pointer identity, labels = IHR classes (0 where a node has no IHR); post-order, its
+/// right-to-left mirror, pre-order and the sharing check are logged in the same vocabulary as the test DAGs.
+fn real_node_events(rng: &mut Rng, out: &mut Out, runs: usize) {
+    use crate::gen::{Gen, JetSig, Ty};
+    use crate::prog::{build_node, Family, CN};
+    use simplicity::dag::MaxSharing;
+    use simplicity::node::{Commit, CommitNode};
+    use std::collections::HashMap;
+    let empty: Vec<JetSig> = vec![];
+    let mut done = 0;
+    let mut attempts = 0;
+    while done < runs && attempts < runs * 20 {
+        attempts += 1;
+        let dag = { let mut g = Gen::new(rng, &empty, 4 + attempts % 24); g.allow_disconnect = attempts % 4 == 0; let r = g.expr(&Ty::Unit, &Ty::Unit, 7); g.finish(r) };
+        // every second program is a random DAG of `comp` nodes over `iden` / `unit` leaves: every node has type 1 -> 1,
+        // so identity is structure and equal sub-expressions written as separate objects abound
+        let dag = if attempts % 2 == 0 { dag } else {
+            let n = 2 + rng.below(14);
+            let mut nodes: Vec<J> = vec![];
+            for k in 1..=n {
+                if k <= 2 || (k < n && rng.chance(1, 3)) { nodes.push(json!([*rng.pick(&["iden", "unit", "iden"]), 0, 0])); }
+                else { nodes.push(json!(["comp", 1 + rng.below(k - 1), 1 + rng.below(k - 1)])); }
+            }
+            // drop what the root does not reach
+            let mut reach = vec![false; n + 1];
+            reach[n] = true;
+            for k in (1..=n).rev() { if reach[k] { for side in [1usize, 2] { let c = ju(&nodes[k - 1][side]); if c != 0 { reach[c] = true; } } } }
+            let mut map = vec![0usize; n + 1];
+            let mut outn = vec![];
+            for k in 1..=n { if reach[k] { let mut nd = nodes[k - 1].clone(); nd[1] = json!(map[ju(&nd[1])]); nd[2] = json!(map[ju(&nd[2])]); outn.push(nd); map[k] = outn.len(); } }
+            json!(outn)
+        };
+        let commit = simplicity::types::Context::with_context(|ctx| {
+            let mut built: Vec<CN> = vec![];
+            for nd in dag.as_array().unwrap() {
+                let nd2 = if nd[0] == "witness" { json!(["witness", 0, 0]) } else { nd.clone() };
+                let get = |k: usize| built[k - 1].clone();
+                match build_node(&ctx, Family::Core, &nd2, &get) { Ok(n) => built.push(n), Err(_) => return None }
+            }
+            built.last().unwrap().finalize_types().ok()
+        });
+        let Some(commit) = commit else { continue };
+        // objects by pointer, in the crate's pointer-sharing post-order
+        let mut idx: HashMap<usize, usize> = HashMap::new();
+        let mut djson = vec![];
+        let mut labels = vec![];
+        let mut first_of: HashMap<String, usize> = HashMap::new();
+        for it in (&*commit).post_order_iter::<InternalSharing>() {
+            let k = it.index + 1;
+            idx.insert(it.node as *const CommitNode as usize, k);
+            djson.push(json!([it.left_index.map_or(0, |x| x + 1), it.right_index.map_or(0, |x| x + 1)]));
+            labels.push(match it.node.ihr() { None => 0, Some(h) => *first_of.entry(h.to_string()).or_insert(k) });
+        }
+        if djson.len() > 60 { continue; }
+        let item = |node: &CommitNode, index: usize, l: Option<usize>, r: Option<usize>| json!([idx[&(node as *const CommitNode as usize)], index, opt(l), opt(r)]);
+        let post: Vec<J> = (&*commit).post_order_iter::<MaxSharing<Commit>>().map(|it| item(it.node, it.index, it.left_index, it.right_index)).collect();
+        let shared = (&*commit).is_shared_as::<MaxSharing<Commit>>();
+        out.emit(&json!({"ev": "post", "md": -1, "dag": djson, "sid": labels, "items": post, "shared": shared, "real": true}));
+        let rtl: Vec<J> = (&*commit).rtl_post_order_iter::<MaxSharing<Commit>>().map(|it| item(it.node, it.index, it.left_index, it.right_index)).collect();
+        out.emit(&json!({"ev": "rtl", "md": -1, "dag": djson, "sid": labels, "items": rtl, "shared": false, "real": true}));
+        let pre: Vec<J> = (&*commit).pre_order_iter::<MaxSharing<Commit>>().map(|n| json!(idx[&(n as *const CommitNode as usize)])).collect();
+        out.emit(&json!({"ev": "pre", "md": -1, "dag": djson, "sid": labels, "items": pre, "shared": false, "real": true}));
+        done += 1;
+    }
+}
+
 pub fn record(runs: usize, max_n: usize, path: &str) {
     let mut rng = Rng::from_env(18);
     let mut out = Out::file(path);
+    real_node_events(&mut rng, &mut out, runs / 4 + 20);
     let mut done = 0;
     while done < runs {
         let n = 1 + rng.below(max_n);
